@@ -1526,9 +1526,12 @@ where
                 refuse(ctx, &id, "hiding-0", matches!(r, Ok(Ok(_))), "hiding_bound = Some(0)".into());
             }
             if S::NAME != "ipa" {
-                let lp = LabeledPolynomial::new("hbig".to_string(), p.clone(), None, Some(inst.shb + 2));
-                let r = guarded(|| S::PC::commit(&inst.ck, [&lp], Some(&mut rng.clone())));
-                refuse(ctx, &id, "hiding-beyond-key", matches!(r, Ok(Ok(_))), format!("hiding_bound = (trimmed hiding bound)+2 = {}", inst.shb + 2));
+                // exactly one above what the keys were trimmed for (the boundary), and two above
+                for over in [1usize, 2] {
+                    let lp = LabeledPolynomial::new("hbig".to_string(), p.clone(), None, Some(inst.shb + over));
+                    let r = guarded(|| S::PC::commit(&inst.ck, [&lp], Some(&mut rng.clone())));
+                    refuse(ctx, &id, "hiding-beyond-key", matches!(r, Ok(Ok(_))), format!("hiding_bound = (trimmed hiding bound)+{} = {}", over, inst.shb + over));
+                }
             }
             let lp = LabeledPolynomial::new("norng".to_string(), p.clone(), None, Some(1));
             let r = guarded(|| S::PC::commit(&inst.ck, [&lp], None));
